@@ -164,10 +164,11 @@ def main(argv):
                 results[(j['key'], j['twin'])] = fut.result()
 
         known = [k for k in load_known() if k.get('property') == prop and k.get('status', 'open') == 'open']
-        violations, inconclusive, errors, discharged = [], [], [], []
+        violations, inconclusive, errors, discharged, hunted = [], [], [], [], []
         harness_rows = []
         samples = []
         tot = dict(paths=0, nontrivial=0, z3=0, z3s=0.0, cpu=0.0)
+        shutil.rmtree(os.path.join(ROOT, 'replays', prop), ignore_errors=True)
         os.makedirs(os.path.join(ROOT, 'replays', prop), exist_ok=True)
         for key in sorted(metas):
             meta = metas[key]
@@ -201,7 +202,7 @@ def main(argv):
                         status = 'error'
                         detail = ('solver counterexample did not reproduce concretely (glue/model imprecision): '
                                   '%s args=%s replay-output=%s' % (rep['message'][:300], r['cex'], out[-500:]))
-            elif r['verdict'] == 'confirmed':
+            elif r['verdict'] == 'confirmed' and not meta.get('hunt'):
                 # vacuity guards: twin must be refuted, every declared target entered
                 unentered = [t for t, n in r.get('targets', {}).items() if n == 0]
                 if tw['verdict'] != 'refuted':
@@ -210,6 +211,8 @@ def main(argv):
                     status, detail = 'vacuous', 'targets never entered: %s' % unentered
                 else:
                     status = 'discharged'
+            elif meta.get('hunt'):
+                status, detail = 'hunted', 'bug-hunting only (input realised at a C boundary): %s paths, no counterexample' % r.get('paths')
             else:
                 status, detail = 'inconclusive', 'CrossHair verdict=%s after %s paths / %.0fs cpu' % (
                     r['verdict'], r.get('paths'), r.get('cpu_s', 0))
@@ -221,7 +224,7 @@ def main(argv):
                        cpu_s=r.get('cpu_s', 0.0), wall_s=r.get('wall_s', 0.0), targets=r.get('targets', {}),
                        bound=meta['bound'], outside=meta['outside'], detail=detail)
             harness_rows.append(row)
-            {'discharged': discharged, 'violated': violations, 'error': errors}.get(status, inconclusive).append(row)
+            {'discharged': discharged, 'violated': violations, 'error': errors, 'hunted': hunted}.get(status, inconclusive).append(row)
 
         # known findings: replay each open witness; listed + reproducing => KNOWN-FINDING line
         known_lines = []
@@ -264,6 +267,7 @@ def main(argv):
                 samples=samples or [{'note': 'no twin counterexample captured'}],
                 exhaustive=bool(discharged) and not inconclusive and not errors,
                 harnesses=len(harness_rows), discharged=len(discharged), inconclusive=len(inconclusive),
+                bug_hunting_only=len(hunted),
                 vacuous_or_error=len(errors), violated=len(violations),
                 solver_queries=tot['z3'], solver_seconds=round(tot['z3s'], 2), cpu_seconds=round(tot['cpu'], 1),
                 functions_encoded=sorted({t for row in harness_rows for t in row['targets']}),
